@@ -220,7 +220,7 @@ def main(argv=None):
                 k = match_known(known, prop, unit=u.name, label=ob['label'])
                 rp = ob.get('replay') or {}
                 if k is not None:
-                    if k['what'] not in [x['what'] for x in known_hit]:
+                    if not any(x is k for x in known_hit):          # one line per LISTED entry (two entries may describe one finding)
                         known_hit.append(k)
                     continue
                 path = os.path.join(OUTP, 'replay', '%s__%s.json' % (prop, safe(ob['name'])))
@@ -266,7 +266,7 @@ def main(argv=None):
             for v in r.get('violations', []):
                 k = match_known(known, prop, cls=v.get('cls')) if v.get('cls') else None
                 if k is not None:
-                    if k['what'] not in [x['what'] for x in known_hit]:
+                    if not any(x is k for x in known_hit):          # one line per LISTED entry (two entries may describe one finding)
                         known_hit.append(k)
                     continue
                 path = os.path.join(OUTP, 'replay', '%s__%s__%s.json' % (prop, safe(r['name']), safe(str(v.get('id', len(violations))))))
